@@ -7,7 +7,7 @@ import time
 import warnings
 from typing import Any
 
-from .. import semgen, semrun
+from .. import semgen, semlean, semrun
 from ..common import hx, unhx
 from ..runner import Check
 from ..translate import constraints as tconstraints
@@ -275,6 +275,79 @@ def campaign_cast(ck: Check) -> None:
     camp.wall_s = time.time() - t0
 
 
+# ============================================================ correspondence: validJN (validity up to null-for-optional)
+def strip_optional_nulls(doc: dict, s: Any, v: Any, depth: int = 0) -> Any:
+    """remove members that are null, declared and not required (the exemption validJN builds in)"""
+    if depth > 8 or not isinstance(s, dict):
+        return v
+    s = semgen.resolve(doc, s)
+    if isinstance(v, dict) and "properties" in s:
+        out = {}
+        for k, x in v.items():
+            ps = s["properties"].get(k)
+            if ps is not None and x is None and k not in s.get("required", []):
+                continue
+            out[k] = strip_optional_nulls(doc, ps, x, depth + 1) if ps is not None else x
+        return out
+    if isinstance(v, dict) and isinstance(s.get("additionalProperties"), dict) and "properties" not in s:
+        return {k: strip_optional_nulls(doc, s["additionalProperties"], x, depth + 1) for k, x in v.items()}
+    if isinstance(v, list) and isinstance(s.get("items"), dict):
+        return [strip_optional_nulls(doc, s["items"], x, depth + 1) for x in v]
+    return v
+
+
+def null_variants(doc: dict, inst: Any) -> list:
+    """the instance with one present non-required member of the root object set to null"""
+    body = semlean.body_of(doc)
+    out = []
+    if isinstance(inst, dict) and isinstance(body.get("properties"), dict):
+        for k in inst:
+            if k in body["properties"] and k not in body.get("required", []) and inst[k] is not None:
+                out.append({**inst, k: None})
+    return out[:2]
+
+
+def campaign_validn(ck: Check, n: int) -> None:
+    camp = ck.campaign("sem.validn (Dcg.Sem.validJN) vs jsonschema on the instance with null non-required members removed")
+    t0 = time.time()
+    rng = ck.rng.fork("validn")
+    reqs, meta = [], []
+    for i in range(n):
+        doc, _ = semgen.gen_doc(rng.fork(str(i)), semgen.GenCfg(draft4=(i % 5 == 0), all_of=False, unions=(i % 2 == 0)))
+        try:
+            ssx = semlean.schema_sx(semlean.body_of(doc))
+            dsx = semlean.defs_sx(doc)
+        except semlean.Unmodelled:
+            camp.unmodelled += 1
+            continue
+        vi = semgen.valid_instances(doc)
+        insts = list(vi)
+        for inst in vi[:3]:
+            insts += null_variants(doc, inst)
+            insts += [m.instance for m in semgen.mutations(doc, inst)[:12]]
+        try:
+            rsx = semlean.regex_sx(doc, insts)
+            enc = [(semlean.json_sx(x), x) for x in insts]
+        except semlean.Unmodelled:
+            camp.unmodelled += 1
+            continue
+        v = semgen.validator_for(doc)
+        for jx, x in enc:
+            reqs.append(f"sem.validn 14 {rsx} {dsx} {ssx} {jx}")
+            meta.append((doc, x, v.is_valid(strip_optional_nulls(doc, semlean.body_of(doc), x))))
+    replies = ck.driver.run(reqs)
+    for (doc, x, lab), rep in zip(meta, replies):
+        camp.evaluations += 1
+        model = rep == "ok true"
+        camp.hit("valid" if lab else "invalid")
+        camp.distinct.add(hash((semgen.canon(doc), semgen.canon(x))))
+        if model != lab:
+            ck.disagree(camp, {"doc": doc, "instance": x}, model, lab)
+        elif len(camp.samples) < 2 and lab and x != strip_optional_nulls(doc, semlean.body_of(doc), x):
+            camp.samples.append({"doc": doc, "instance_with_null_for_optional": x, "validJN": model})
+    camp.wall_s = time.time() - t0
+
+
 # ============================================================ the property oracle, end to end
 def _body(doc: dict) -> dict:
     return {k: v for k, v in doc.items() if k not in ("definitions", "$defs", "title", "x-draft4")}
@@ -528,6 +601,7 @@ def run(ck: Check) -> None:
     campaign_reported(ck)
     campaign_normalise(ck, 400 if quick else 4000)
     campaign_cast(ck)
+    campaign_validn(ck, 40 if quick else 300)
     campaign_focused(ck)
     campaign_random(ck, 80 if quick else 1200)
     ck.search_hooks.append(search_broken_keyword)
